@@ -71,9 +71,9 @@ fn compare_codes<T: DSym>(
 {
     for i in 0.. {
         if let Some(next) = trav.get(i) {
-            let dif = next - best.get(i).unwrap();
-            if dif != 0 {
-                return dif;
+            let other = best.get(i).unwrap();
+            if next != other {
+                return if next < other { -1 } else { 1 };
             }
         } else {
             return 0;
